@@ -50,25 +50,27 @@ class Affine:
             for c in v.comps: r = s.join(r, s.flat(c))
             return r if r is not None else s.U
         return v
-    def join(s, a, b):
+    def join(s, a, b, storage=False):
         if a is None: return b
         if b is None: return a
         if a.kind in ("vec", "rows") or b.kind in ("vec", "rows"):
             if a.kind == b.kind and len(a.comps) == len(b.comps):
-                return A(a.kind, comps=[s.join(x, y) for x, y in zip(a.comps, b.comps)])
+                return A(a.kind, comps=[s.join(x, y, storage) for x, y in zip(a.comps, b.comps)])
             if a.kind == "any": return b
             if b.kind == "any": return a
             if a.kind in ("vec", "rows") and b.kind in ("w",):
-                return A(a.kind, comps=[s.join(x, b) for x in a.comps])
+                return A(a.kind, comps=[s.join(x, b, storage) for x in a.comps])
             if b.kind in ("vec", "rows") and a.kind in ("w",):
-                return A(b.kind, comps=[s.join(a, x) for x in b.comps])
-            return s.join(s.flat(a), s.flat(b))
+                return A(b.kind, comps=[s.join(a, x, storage) for x in b.comps])
+            return s.join(s.flat(a), s.flat(b), storage)
         if a.kind == "any": return b
         if b.kind == "any": return a
         for k in ("bad", "top"):
             if k in (a.kind, b.kind): return a if a.kind == k else b
         if a.w == b.w: return a
-        return s.bad(f"one storage location holds values of translation weight {a.w} and {b.w}")
+        if storage:
+            return s.bad(f"one storage location holds values of translation weight {a.w} and {b.w}")
+        return s.top(f"control-flow join of translation weights {a.w} and {b.w}")
     def iter_elem(s, v):
         if v.kind == "rows": return s.vec(v.comps)
         if v.kind == "vec": return s.flat(v)
@@ -126,6 +128,12 @@ class Affine:
         if s.is_untracked(a) and s.is_untracked(b): return s.U
         return s.bad(f"{name} applied to a translation-covariant value")
     def compare(s, vals, node):
+        if len(vals) >= 2 and all(v.kind == "vec" for v in vals) and len({len(v.comps) for v in vals}) == 1:
+            r = s.U            # component-wise comparison of vectors of equal shape
+            for comps in zip(*[v.comps for v in vals]):
+                c = s.compare(list(comps), node)
+                if c.kind in ("bad", "top"): r = c
+            return r
         vals = [s.flat(v) if v.kind in ("vec", "rows") else v for v in vals]
         for k in ("bad", "top"):
             for v in vals:
@@ -161,17 +169,17 @@ class Affine:
             if isinstance(sl, ast.Tuple) and len(sl.elts) == 2:
                 col = s._const_index(sl.elts[1])
                 if col is not None:
-                    comps = list(cur.comps); comps[col] = s.join(comps[col], s.flat(v) if v.kind in ("vec", "rows") else v)
+                    comps = list(cur.comps); comps[col] = s.join(comps[col], s.flat(v) if v.kind in ("vec", "rows") else v, True)
                     return s.rows(comps)
             if v.kind in ("vec",) and len(v.comps) == len(cur.comps):
-                return s.rows([s.join(x, y) for x, y in zip(cur.comps, v.comps)])
-            return s.rows([s.join(x, s.flat(v)) for x in cur.comps])
+                return s.rows([s.join(x, y, True) for x, y in zip(cur.comps, v.comps)])
+            return s.rows([s.join(x, s.flat(v), True) for x in cur.comps])
         if cur.kind == "vec":
             k = s._const_index(sl)
             if k is not None:
-                comps = list(cur.comps); comps[k] = s.join(comps[k], v); return s.vec(comps)
-            return s.vec([s.join(x, s.flat(v)) for x in cur.comps])
-        return s.join(cur, s.flat(v) if v.kind in ("vec", "rows") else v)
+                comps = list(cur.comps); comps[k] = s.join(comps[k], v, True); return s.vec(comps)
+            return s.vec([s.join(x, s.flat(v), True) for x in cur.comps])
+        return s.join(cur, s.flat(v) if v.kind in ("vec", "rows") else v, True)
     def attribute(s, v, name):
         if name in ("T", "real", "imag", "flat"): return v
         if name in ("shape", "size", "ndim", "dtype"): return s.U
@@ -191,12 +199,12 @@ class Affine:
             return s.vec(leaves) if len(leaves) > 1 else leaves[0]
         if all(isinstance(i, A) and i.kind == "vec" for i in leaves):
             r = None
-            for i in leaves: r = s.join(r, i)
+            for i in leaves: r = s.join(r, i, True)
             return s.rows(r.comps)
         if all(isinstance(i, Tup) for i in leaves):
             vs = [s._from_tup(i) for i in leaves]
             r = None
-            for i in vs: r = s.join(r, i)
+            for i in vs: r = s.join(r, i, True)
             return s.rows(r.comps) if r.kind == "vec" else r
         return s.interp.flat(t)
     def summary(s, name, args, kwargs, node):
@@ -224,19 +232,19 @@ class Affine:
             return v
         if name in ("numpy.concatenate", "numpy.hstack", "numpy.append"):
             r = None
-            for x in (args[0].items if isinstance(args[0], Tup) else fa): r = s.join(r, arr(x))
+            for x in (args[0].items if isinstance(args[0], Tup) else fa): r = s.join(r, arr(x), True)
             return r
         if name == "numpy.array_equal": return s.compare([fa[0], fa[1]], node)
         if name in ("numpy.cross", "numpy.dot", "numpy.vdot"):
             return s.lift(s._mul(None, None), s.flat(fa[0]) if name != "numpy.cross" else fa[0], s.flat(fa[1]) if name != "numpy.cross" else fa[1]) if not (s.is_untracked(fa[0]) and s.is_untracked(fa[1])) else (fa[0] if name == "numpy.cross" and fa[0].kind == "vec" else s.U)
         if name in ("min", "max", "numpy.min", "numpy.max", "numpy.abs", "abs", "numpy.where", "numpy.minimum", "numpy.maximum"):
             r = None
-            for v in fa: r = s.join(r, s.flat(v) if v.kind in ("vec", "rows") else v)
+            for v in fa: r = s.join(r, s.flat(v) if v.kind in ("vec", "rows") else v, True)
             if name in ("numpy.abs", "abs") and r is not None and r.kind == "w" and r.w != 0:
                 return s.bad("abs of a translation-covariant value")
             return r if r is not None else s.U
         if name in ("numpy.linspace",):
-            return s.join(s.flat(fa[0]), s.flat(fa[1])) if len(fa) >= 2 else s.U
+            return s.join(s.flat(fa[0]), s.flat(fa[1]), True) if len(fa) >= 2 else s.U
         if name.startswith(NONLIN_OK) or name in ("int", "float", "bool", "round"):
             allv = fa + list(fk.values())
             if all(s.is_untracked(v) for v in allv): return s.U
